@@ -2,7 +2,11 @@
  * depth, for 2 LPs on one thread, against a shadow that keeps the valid per-LP event history: events processed with a
  * chosen predicate outcome, rollbacks to a chosen point (timestamp t, k of the events at exactly t surviving), GVT
  * reports.  Oracle: the thread may vote to terminate at GVT g only if g reached the termination time or every LP's
- * predicate is true at initialisation or after a still-valid event with timestamp below g. */
+ * predicate is true at initialisation or after a still-valid event with timestamp below g.
+ * Mode "live" (C08): the converse, against a boring reference of the module's own rule - an LP is terminated if its
+ * predicate held at LP_INIT (for good), or since an event at time T with a true predicate as long as no rollback at a time
+ * <= T follows; when every LP is terminated and the reported GVT is above every termination time ever declared, the thread
+ * must vote at that report (otherwise a run whose predicates all hold on committed states never ends by them). */
 #include "sx.h"
 #include <ROOT-Sim.h>
 #include <core/core.h>
@@ -42,6 +46,10 @@ static struct ev hist[NL][MAXE];
 static int nh[NL];
 static int pred_init[NL];
 static int gvt_told;
+static int live_mode;
+#define T_INF 1000
+static int ref_term[NL]; /* reference: -1 = not terminated, else the time it is terminated since (T_INF: at LP_INIT) */
+static int maxtrue_ever;
 
 enum { OP_P, OP_RB, OP_G };
 struct op {
@@ -56,6 +64,7 @@ static void reset(int initmask)
 	max_t = 0;
 	votes = 0;
 	gvt_told = 0;
+	maxtrue_ever = -1;
 	global_config.n_threads = 1;
 	global_config.termination_time = SIMTIME_MAX;
 	global_config.committed = committed_cb;
@@ -64,6 +73,7 @@ static void reset(int initmask)
 	for(int l = 0; l < NL; ++l) {
 		nh[l] = 0;
 		pred_init[l] = pred_now[l] = (initmask >> l) & 1;
+		ref_term[l] = pred_init[l] ? T_INF : -1;
 		termination_lp_init(&LP[l]);
 	}
 }
@@ -79,6 +89,11 @@ static int apply(struct op o)
 			hist[o.lp][nh[o.lp]++] = (struct ev){o.t, o.x};
 			pred_now[o.lp] = o.x;
 			snprintf(trace + tl, sizeof trace - tl, "P(lp%d,t=%d,%s) ", o.lp, o.t, o.x ? "true" : "false");
+			if(ref_term[o.lp] < 0 && o.x) {
+				ref_term[o.lp] = o.t;
+				if(o.t > maxtrue_ever)
+					maxtrue_ever = o.t;
+			}
 			termination_on_msg_process(&LP[o.lp], (simtime_t)o.t);
 			return 1;
 		case OP_RB: {
@@ -100,6 +115,8 @@ static int apply(struct op o)
 			nh[o.lp] = keep;
 			pred_now[o.lp] = keep ? hist[o.lp][keep - 1].pred : pred_init[o.lp];
 			snprintf(trace + tl, sizeof trace - tl, "RB(lp%d,t=%d,keep %d at t) ", o.lp, o.t, o.x);
+			if(ref_term[o.lp] != T_INF && ref_term[o.lp] >= o.t)
+				ref_term[o.lp] = -1;
 			termination_on_lp_rollback(&LP[o.lp], (simtime_t)o.t);
 			return 1;
 		}
@@ -152,7 +169,15 @@ static void dfs(int depth, int initmask)
 					sx_transitions++;
 					if(kind == OP_RB)
 						sx_nontrivial++;
-					if(votes && !legit(gvt_told)) {
+					if(live_mode) {
+						int all = 1;
+						for(int l = 0; l < NL; ++l)
+							all &= ref_term[l] >= 0;
+						if(kind == OP_G && !votes && all && gvt_told > maxtrue_ever)
+							sx_violation("no termination vote at a GVT report although every LP is terminated below it", "%s", trace);
+						if(kind == OP_G && all && gvt_told > maxtrue_ever)
+							sx_states++;
+					} else if(votes && !legit(gvt_told)) {
 						sx_violation("termination vote although some LP's predicate never held on a still-valid event below the GVT",
 						    "%s", trace);
 						continue;
@@ -169,6 +194,7 @@ static void dfs(int depth, int initmask)
 int main(int argc, char **argv)
 {
 	depth_max = argc > 1 ? atoi(argv[1]) : 5;
+	live_mode = argc > 2 && !strcmp(argv[2], "live");
 	sx_begin();
 	sx_watchdog("s_term", trace, 120);
 	for(int initmask = 0; initmask < (1 << NL); ++initmask)
